@@ -300,6 +300,22 @@ func genC08(t *rapid.T) c08Case {
 		xs = append(xs, x)
 		tw := x
 		tw.Extra = append(append([]string{}, x.Extra...), "badfilter")
+		if len(x.DPerm) >= 2 && chance(t, "repeated-value-twin", 3) {
+			// third family: the rule stays, and a lone badfilter rule repeats one of its
+			// $domain values instead of listing the other ones: same length, another value set
+			rep := x
+			rep.DPerm = make([]string, len(x.DPerm))
+			for j := range rep.DPerm {
+				rep.DPerm[j] = x.DPerm[0]
+			}
+			rep.Extra = append(append([]string{}, x.Extra...), "badfilter")
+			if !keys[modelKey(rep)] {
+				keys[modelKey(rep)] = true
+				add(x, false)
+				add(rep, true)
+				continue
+			}
+		}
 		if chance(t, "lone-twin", 4) {
 			// second family: the rule itself is absent, a near miss y sits in the base list
 			y := c08Mutate(t, x)
